@@ -34,9 +34,11 @@ CHECKS = {
         ref="§4 C02"),
     "C11": dict(
         text="Theorems fasthash64_eq/fasthash32_eq/murmur3_eq prove, for byte strings of ANY length and any seed, that the model of the code's structure with constants regenerated "
-             "from the source equals the published reference algorithms; decide-anchors pin the reference to C++-derived vectors. The run regenerates the constants, re-checks "
-             "the proofs and compares the real functions with both Lean models on every block/tail/alignment class.",
-        tech="Lean 4 proof (Impl = Ref for all inputs, constants translated from source) + differential correspondence",
+             "from the source equals the published reference algorithms; decide-anchors pin the reference to C++-derived vectors. hashes.py is additionally TRANSLATED WHOLE on every run "
+             "(harness/hashtr.py → Model/Generated/FullHash.lean, over UInt64/UInt32/bytes) and fasthash64_full/fasthash32_full/murmur3_full + *_src_ref prove that the source as it reads "
+             "now equals the model and hence the published algorithms for every seed and every key shorter than 2^64 (2^32) bytes. The run re-checks the proofs and compares the real "
+             "functions with both Lean models on every block/tail/alignment class, incl. keys that are views taken inside jitted code.",
+        tech="Lean 4 proof (source translated whole = Impl = Ref for all inputs) + differential correspondence",
         ref="§4 C11"),
 }
 
